@@ -29,15 +29,20 @@ def run(ctx):
                 "the value, serialize(); archive content of the image = ASetContent(value), image = BinFormat!Canon for "
                 "contents with <= 48 strings, re-read fields = value, second serialization = first. impl->spec: seeded "
                 "random values (<= 40 sets, random presence per group, names incl. '' and 2-byte) and FE14Aset_Test.bin, "
-                "validated by TLC. Non-trivial = at least one set with a present slot.")
+                "validated by TLC; plus rule-built large values (330 sets x 200 slots = 66 000 string cells; 65 600 labelled "
+                "empty sets = 65 601 labels) whose header totals TLC derives from the rule and whose round trip must succeed; "
+                "everything under the release and the checked build. Non-trivial = at least one set with a present slot.")
     binary = ctx.build("release", "mvh_cont")
     runs, max_sets = ctx.pick((45, 40), (1000, 40))
     cc.round_trip_check(ctx, "C17", binary, "MC_ASet", "Gen_ASet.cfg", "Trace_ASet", "aset",
-                        ["PickBucket", "PickValue"], ["PickSeed", "StepSeed"], [runs, max_sets],
+                        ["PickBucket", "PickValue"], ["PickSeed", "StepSeed"], [runs, max_sets, "big"],
                         _case, _event,
                         lambda c: any(x["some"] for s in c["value"]["sets"] for x in s["slots"]),
                         lambda e: any(x["some"] for s in e["value"]["sets"] for x in s["slots"]))
-    ctx.assumptions += ["bounded model (see rule): 2^256 presence patterns per set are sampled, not exhausted",
+    ctx.assumptions += ["rule-built large values travel as (rule, image header, round-trip flags): TLC decides the header totals from "
+                        "the rule (BigRuleLaw ties the rule to ASetContent on small instances); field equality of the re-read value "
+                        "is computed by the harness on the Rust structs",
+                        "bounded model (see rule): 2^256 presence patterns per set are sampled, not exhausted",
                         "the container image is specified by spec/BinFormat.tla (C01/C02); byte-exact comparison with "
                         "BinFormat!Canon is made for contents with <= 48 strings, larger ones are compared as archive "
                         "content (data, strings, labels) read back through BinArchive::from_bytes",
